@@ -1,5 +1,13 @@
-"""C07 driver: dump every logic's truth tables and designated values (public API only)."""
+"""C07 driver: dump every logic's truth tables and designated values (public API only).
+
+usage: d_tables.py <out.ndjson> <mode>
+mode  all      registry.import_all(), then per logic: table(op), table(op, reverse=True), table(op) again
+      lazy:N   logics are looked up one by one (imported on demand) in order N (0 sorted, 1 reversed, >=2 seeded
+               shuffle) and their tables are dumped immediately: a table must not depend on what was asked before
+Every call is recorded as its own phase; rows are (inputs, output) pairs, so the order of a reversed table does not matter.
+"""
 import json
+import random
 import sys
 
 from pytableaux.lang import Operator
@@ -7,28 +15,53 @@ from pytableaux.logics import registry
 
 TF = ['Assertion', 'Negation', 'Conjunction', 'Disjunction', 'MaterialConditional',
       'MaterialBiconditional', 'Conditional', 'Biconditional']
+NAMES = ['B3E', 'CFOL', 'CPL', 'D', 'FDE', 'G3', 'GO', 'K', 'K3', 'K3W', 'K3WQ', 'KB3E', 'KFDE', 'KG3', 'KK3', 'KK3W',
+         'KK3WQ', 'KL3', 'KLP', 'KRM3', 'L3', 'LP', 'MH', 'NH', 'P3', 'RM3', 'S4', 'S4B3E', 'S4FDE', 'S4G3', 'S4GO',
+         'S4K3', 'S4K3W', 'S4K3WQ', 'S4L3', 'S4LP', 'S4RM3', 'S5', 'S5B3E', 'S5FDE', 'S5G3', 'S5K3', 'S5K3W', 'S5K3WQ',
+         'S5L3', 'S5LP', 'S5RM3', 'T', 'TB3E', 'TFDE', 'TG3', 'TK3', 'TK3W', 'TK3WQ', 'TL3', 'TLP', 'TRM3']
 
 
-def main(out):
-    registry.import_all()
+def tables(lg, **kw):
+    out = []
+    for op in TF:
+        tt = lg.Model.truth_table(Operator[op], **kw)
+        rows = [{'ins': [v.name for v in ins], 'out': outv.name} for ins, outv in zip(tt.inputs, tt.outputs)]
+        out.append({'op': op, 'rows': rows})
+    return out
+
+
+def record(lg, phase, **kw):
+    M = lg.Meta
+    return {'id': f'{M.name}/{phase}', 'logic': M.name, 'phase': phase,
+            'values': [v.name for v in M.values],
+            'designated': sorted(v.name for v in M.designated_values),
+            'unassigned': M.unassigned_value.name,
+            'modal': int(bool(M.modal)), 'quantified': int(bool(M.quantified)),
+            'native': [o.name for o in M.native_operators],
+            'tables': tables(lg, **kw)}
+
+
+def main(out, mode='all'):
     with open(out, 'w') as f:
-        for lg in sorted(registry.values(), key=lambda l: l.Meta.name):
-            M = lg.Meta
-            tables = []
-            for op in TF:
-                tt = lg.Model.truth_table(Operator[op])
-                rows = [{'ins': [v.name for v in ins], 'out': outv.name}
-                        for ins, outv in zip(tt.inputs, tt.outputs)]
-                tables.append({'op': op, 'rows': rows})
-            rec = {'id': M.name, 'logic': M.name,
-                   'values': [v.name for v in M.values],
-                   'designated': sorted(v.name for v in M.designated_values),
-                   'unassigned': M.unassigned_value.name,
-                   'modal': int(bool(M.modal)), 'quantified': int(bool(M.quantified)),
-                   'native': [o.name for o in M.native_operators],
-                   'tables': tables}
-            f.write(json.dumps(rec) + '\n')
+        if mode == 'all':
+            registry.import_all()
+            found = sorted(lg.Meta.name for lg in registry.values())
+            for name in found:
+                lg = registry(name)
+                for phase, kw in (('first', {}), ('reversed', {'reverse': True}), ('again', {})):
+                    f.write(json.dumps(record(lg, phase, **kw)) + '\n')
+            f.write(json.dumps({'id': 'REGISTERED', 'logic': '', 'phase': 'names', 'names': found}) + '\n')
+        else:
+            n = int(mode.split(':')[1])
+            names = sorted(NAMES)
+            if n == 1:
+                names.reverse()
+            elif n >= 2:
+                random.Random(n).shuffle(names)
+            for name in names:
+                lg = registry(name)
+                f.write(json.dumps(record(lg, mode)) + '\n')
 
 
 if __name__ == '__main__':
-    main(sys.argv[1])
+    main(*sys.argv[1:])
